@@ -132,6 +132,7 @@ type c19ChainWorld struct {
 	db, dry *gorm.DB
 	rec     *Recorder
 	fins    []Finisher
+	all     []c19Deriv // every derivation (lookup for replays)
 	dvs     []c19Deriv
 }
 
@@ -147,12 +148,29 @@ func c19OpenChainWorld() *c19ChainWorld {
 	w.fins = append(w.fins, readFinishers()...)
 	w.fins = append(w.fins, writeFinishers()...)
 	w.fins = append(w.fins, createFinishers()...)
+	// explicit transactions under ToSQL are the pattern of finding F25: while it is listed AND the tree does not carry its
+	// repair they are left to the "ops" suite (which matches them against the pattern); otherwise they are ordinary input
+	explicitOK := !listed(c19FExplicitTx) || c19BeginSkipsDryRun()
 	for _, d := range c19Derivs() {
-		if !d.Explicit { // explicit transactions under ToSQL are finding F25; they are exercised by the "ops" suite
+		w.all = append(w.all, d)
+		if !d.Explicit || explicitOK {
 			w.dvs = append(w.dvs, d)
 		}
 	}
 	return w
+}
+
+// c19BeginSkipsDryRun: the regenerated fact Gen.beginSkipsDryRun of the tree under check (false if the driver cannot be asked)
+func c19BeginSkipsDryRun() bool {
+	outs, err := AskLean([][]interface{}{{"c19.flags"}})
+	if err != nil || len(outs) != 1 {
+		return false
+	}
+	var f struct {
+		BeginSkipsDryRun bool `json:"beginSkipsDryRun"`
+	}
+	_ = json.Unmarshal(outs[0], &f)
+	return f.BeginSkipsDryRun
 }
 
 func (w *c19ChainWorld) eval(r *Result, spec c19ChainSpec, sample bool) {
@@ -163,7 +181,7 @@ func (w *c19ChainWorld) eval(r *Result, spec c19ChainSpec, sample bool) {
 		}
 	}
 	dv := w.dvs[0]
-	for _, d := range w.dvs {
+	for _, d := range w.all { // a replayed spec may name a derivation the generator of this tree leaves out
 		if d.Name == spec.Deriv {
 			dv = d
 		}
